@@ -128,7 +128,18 @@ inline std::string bit5Sibling(const std::string& base, Rng& r) {
 // A name that a sloppy comparison may take for `base` although it is a different name: same stem with another (or no) extension,
 // same text after a backslash (an ordinary character on this platform), a trailing dot, or a bit-5 sibling.
 inline std::string tieProneSibling(const std::string& base, Rng& r) {
-	switch (r.below(5)) {
+	switch (r.below(7)) {
+	case 5: case 6: {
+		// one letter replaced by a character that sorts between 'Z' and 'a': folding to upper case and folding to lower case order
+		// such a pair differently
+		std::vector<size_t> at;
+		for (size_t i = 0; i < base.size(); ++i) if (isalpha(static_cast<unsigned char>(base[i]))) at.push_back(i);
+		if (at.empty()) return base + "_";
+		std::string s = base;
+		static const char C[] = {'[', '\\', ']', '^', '_', '`'};
+		s[at[r.below(at.size())]] = C[r.below(6)];
+		return s;
+	}
 	case 0: { size_t dot = base.rfind('.'); std::string stem = dot == std::string::npos || dot == 0 ? base : base.substr(0, dot); static const char* E[] = {".txt", ".bmp", ".map", "", ".t", ".TXT2"}; return stem + E[r.below(6)]; }
 	case 1: return std::string(1, static_cast<char>('a' + r.below(26))) + std::string(1 + r.below(2), 'q') + "\\" + base;
 	case 2: { size_t bs = base.rfind('\\'); return std::string(1, static_cast<char>('A' + r.below(26))) + "\\" + (bs == std::string::npos ? base : base.substr(bs + 1)); }
